@@ -167,7 +167,14 @@ where
     type Values = Timeline::Target;
 
     fn advance(&mut self, elapsed_seconds: f32) {
-        self.state_duration += Duration::from_secs_f32(elapsed_seconds);
+        let elapsed = match Duration::try_from_secs_f32(elapsed_seconds) {
+            Ok(elapsed) => elapsed,
+            // Finite but beyond what a `Duration` can hold (about 1.8e19 seconds): saturate.
+            Err(_) if elapsed_seconds > 0.0 => Duration::MAX,
+            // Negative or NaN: not a valid elapsed time, keep the panic of `from_secs_f32`.
+            Err(_) => Duration::from_secs_f32(elapsed_seconds),
+        };
+        self.state_duration = self.state_duration.saturating_add(elapsed);
         self.update_current_values();
     }
 
